@@ -51,6 +51,7 @@ def run(ctx, rep):
     rep.rule("R01.6", "references passed as arguments/results stay valid: counting discipline (= C10)")
     rep.rule("R01.7", "exceptions keep class and data across hops (= C09 reconstruction rules)")
     rep.rule("R01.8", "exactly one response per request, handler at most once (= C08)")
+    rep.rule("R01.10", "the proxy resolves its own machinery (incl. __call__) locally and fetches everything else by its own name (= R02.7)")
     rep.rule("R01.9", "value/reference decision and identity (= C03)")
     rep.assume("equality of transported values is decided by C03/C04; semantics of user callables are out of scope")
     table, rows = c06.handler_table(ctx)
@@ -339,7 +340,9 @@ def run(ctx, rep):
     K.share(ctx, rep, "c11", lambda o: o.rule == "R11.5", "R01.5", floor=1)
     K.share(ctx, rep, "c13", lambda o: o.rule == "R13.3", "R01.5", floor=2)
     K.share(ctx, rep, "c10", lambda o: o.rule in ("R10.1", "R10.2", "R10.3", "R10.4"), "R01.6", floor=10)
-    K.share(ctx, rep, "c09", lambda o: o.rule in ("R09.6", "R09.2", "R09.7", "R09.5", "R09.4"), "R01.7", floor=12)
+    K.share(ctx, rep, "c09", lambda o: o.rule in ("R09.6", "R09.2", "R09.7", "R09.5", "R09.4", "R09.10", "R09.11"), "R01.7", floor=12)
     K.share(ctx, rep, "c08", lambda o: o.rule in ("R08.1", "R08.3") and "carries the handler's result" not in o.key
             and "no-exception continuation" not in o.key, "R01.8", floor=6)
     K.share(ctx, rep, "c03", lambda o: o.rule in ("R03.1", "R03.2", "R03.3", "R03.4"), "R01.9", floor=8)
+    # a call spelled `f.__call__(x)` / hasattr(f, "__call__") goes through the proxy's attribute plumbing
+    K.share(ctx, rep, "c02", lambda o: o.rule == "R02.7", "R01.10", floor=2)
